@@ -282,24 +282,26 @@ theorem snapshot_is_temporal_usage (lrs : List TLR) (ct : Nat) (u : List Int)
 
 /-- the peak the scheduler compares with the SRAM target is the largest number of bytes in use -/
 theorem peakUsage_ge (u : List Int) (t : Nat) (ht : t < u.length) : u[t] ≤ peakUsage u := by
-  unfold peakUsage
-  have gen : ∀ (l : List Int) (acc : Int) (i : Nat) (hi : i < l.length), l[i] ≤ l.foldl max acc ∧ acc ≤ l.foldl max acc := by
+  have gen : ∀ (l : List Int) (acc : Int), acc ≤ l.foldl max acc ∧ ∀ (i : Nat) (hi : i < l.length), l[i] ≤ l.foldl max acc := by
     intro l
     induction l with
-    | nil => intro acc i hi; simp at hi
+    | nil => intro acc; exact ⟨Int.le_refl _, by intro i hi; simp at hi⟩
     | cons a r ih =>
-      intro acc i hi
+      intro acc
       simp only [List.foldl_cons]
-      have hacc : ∀ (l : List Int) (acc : Int), acc ≤ l.foldl max acc := by
-        intro l; induction l with
-        | nil => intro acc; simp
-        | cons b r ih2 => intro acc; simp only [List.foldl_cons]; exact Int.le_trans (Int.le_max_left _ _) (ih2 _)
+      have := ih (max acc a)
+      refine ⟨Int.le_trans (Int.le_max_left _ _) this.1, ?_⟩
+      intro i hi
       cases i with
-      | zero => exact ⟨Int.le_trans (Int.le_max_right _ _) (hacc r _), Int.le_trans (Int.le_max_left _ _) (hacc r _)⟩
-      | succ j =>
-        have := ih (max acc a) j (by simpa using hi)
-        exact ⟨by simpa using this.1, Int.le_trans (Int.le_max_left _ _) this.2⟩
-  exact (gen u 0 t ht).1
+      | zero => exact Int.le_trans (Int.le_max_right _ _) this.1
+      | succ j => simpa using this.2 j (by simpa using hi)
+  cases u with
+  | nil => simp at ht
+  | cons x xs =>
+    unfold peakUsage
+    cases t with
+    | zero => exact (gen xs x).1
+    | succ j => simpa using (gen xs x).2 j (by simpa using ht)
 
 /-- **snapshot_wraps_witness.**  Without the bound the entries are not the bytes in use: two ranges of 2147483632 and 32
     bytes alive together give a negative entry (`np.int32`). -/
